@@ -298,7 +298,11 @@ fn eval_concat_ws<'a>(args: &[Option<Value<'a>>]) -> Option<Value<'a>> {
 
 fn eval_lpad<'a>(args: &[Option<Value<'a>>]) -> Option<Value<'a>> {
     let text = get_text(args.first()?)?;
-    let target_len = get_int(args.get(1)?)? as usize;
+    let target_len = get_int(args.get(1)?)?;
+    if target_len < 0 {
+        return Some(Value::Null);
+    }
+    let target_len = target_len as usize;
     let pad = get_text(args.get(2)?)?;
 
     let char_count = text.chars().count();
@@ -325,7 +329,11 @@ fn eval_lpad<'a>(args: &[Option<Value<'a>>]) -> Option<Value<'a>> {
 
 fn eval_rpad<'a>(args: &[Option<Value<'a>>]) -> Option<Value<'a>> {
     let text = get_text(args.first()?)?;
-    let target_len = get_int(args.get(1)?)? as usize;
+    let target_len = get_int(args.get(1)?)?;
+    if target_len < 0 {
+        return Some(Value::Null);
+    }
+    let target_len = target_len as usize;
     let pad = get_text(args.get(2)?)?;
 
     let char_count = text.chars().count();
